@@ -9,6 +9,7 @@ D2 (C03)  SOAP/QR with parameter dtype != preconditioner dtype fails every refre
 D3 (C09)  checkpoint of a block without Kronecker factors cannot be loaded
 D4 (C11)  1x1 slightly-negative input -> NaN inverse root
 D5 (C13)  failure counter is lost when the gradient mask changes
+D9 (C04)  momentum schedule through zero leaves a stale masked momentum list (cross-wired buffers)
 D6 (C16)  module state with a tensor-free sequence element cannot be restored from a flattened checkpoint
 """
 import io
@@ -148,7 +149,31 @@ def d6():
     return None if torch.equal(dst.seq[1], src.seq[1]) else "value not restored"
 
 
-ALL = {"D6": d6, "D1": d1, "D2": d2, "D3": d3, "D4": d4, "D5": d5}
+def d9():
+    def mk():
+        ps = [torch.nn.Parameter(torch.tensor([[1.0, -2.0], [0.5, 1.5]]) * (i + 1)) for i in range(3)]
+        return ps, DistributedShampoo(ps, lr=0.25, betas=(0.0, 1.0), epsilon=1e-1, momentum=0.5, precondition_frequency=1, start_preconditioning_step=1, use_merge_dims=False)
+    ps, opt = mk()
+    g = lambda i, t: torch.tensor([[1.0, 2.0], [-1.0, 0.5]]) * (1 + i + t)
+    masks = [(0, 1, 0), (1, 0, 0), (1, 0, 0)]
+    for t, m in enumerate(masks):
+        if t == 1:
+            opt.param_groups[0]["momentum"] = 0.0
+        if t == 2:
+            opt.param_groups[0]["momentum"] = 0.5
+        for i, p in enumerate(ps):
+            p.grad = g(i, t) if m[i] else None
+        before = opt.state[ps[1]]["block_0"]["momentum"].clone()
+        try:
+            opt.step()
+        except RuntimeError as e:
+            return f"step {t} raised {str(e)[:80]}"
+        if not m[1] and not torch.equal(opt.state[ps[1]]["block_0"]["momentum"], before):
+            return f"step {t}: momentum buffer of parameter 1 changed although it has no gradient"
+    return None
+
+
+ALL = {"D9": d9, "D6": d6, "D1": d1, "D2": d2, "D3": d3, "D4": d4, "D5": d5}
 
 if __name__ == "__main__":
     import distributed_shampoo
